@@ -4,6 +4,8 @@ import (
 	"encoding/json"
 	"errors"
 	"fmt"
+	"os"
+	"path/filepath"
 	"strings"
 
 	"verifsim/kernel"
@@ -29,6 +31,7 @@ type vmScenario struct {
 	Repeat  int      `json:"repeat,omitempty"`
 	EmptyAt []int    `json:"empty_at,omitempty"`
 	Empties []string `json:"empties,omitempty"`
+	Files   map[string]string `json:"files,omitempty"` // simulated disk for (source ...)
 	// C01 uses this engine for its panic oracle only
 	PanicsOnly bool `json:"panics_only,omitempty"`
 }
@@ -109,7 +112,7 @@ func installHost(env *zygo.Zlisp, h *host) {
 
 // ---- observation
 
-var snapNames = []string{"g0", "g1", "g2", "g3", "g4", "g5", "h0", "h1", "r0", "r1", "f0", "f1", "f2", "zq1", "zq2", "zq3"}
+var snapNames = []string{"g0", "g1", "g2", "g3", "g4", "g5", "h0", "h1", "r0", "r1", "f0", "f1", "f2", "sv0", "sv1", "zq1", "zq2", "zq3"}
 var snapMacros = []string{"m0", "m1", "zm"}
 
 func globalSnapshot(env *zygo.Zlisp) string {
@@ -219,7 +222,7 @@ var battery = []string{
 	"(def zq3 [1 2 3])",
 	"(aget zq3 9)",
 	"(m0 4)", "(m1 4)",
-	"(t0)", "(t1)", "(t2)", "(t0)",
+	"(t0)", "(t1)", "(t2)", "(t0)", "sv0", "sv1",
 	"(- 10 3)",
 }
 
@@ -312,6 +315,12 @@ func execVM(body json.RawMessage) *kernel.Result {
 	if sc.Budget == 0 {
 		sc.Budget = zy.DefaultBudget
 	}
+	if len(sc.Files) > 0 {
+		if err := setupSimDisk(sc.Files); err != nil {
+			res.Violate("", "harness", "simdisk", err.Error())
+			return res
+		}
+	}
 	switch sc.Mode {
 	case "faults":
 		execFaults(&sc, res)
@@ -325,6 +334,28 @@ func execVM(body json.RawMessage) *kernel.Result {
 }
 
 var dbgNative func(form, out string)
+
+// setupSimDisk writes the scenario's files into a per-process directory inside the scratch area and makes it
+// the working directory, so that (source "s0.zy") finds exactly what the scenario says
+func setupSimDisk(files map[string]string) error {
+	exe, err := os.Executable()
+	if err != nil {
+		return err
+	}
+	dir := filepath.Join(filepath.Dir(exe), fmt.Sprintf("simdisk-%d", os.Getpid()))
+	if err := os.MkdirAll(dir, 0755); err != nil {
+		return err
+	}
+	for _, old := range []string{"s0.zy", "s1.zy", "s2.zy"} {
+		os.Remove(filepath.Join(dir, old))
+	}
+	for name, content := range files {
+		if err := os.WriteFile(filepath.Join(dir, name), []byte(content), 0644); err != nil {
+			return err
+		}
+	}
+	return os.Chdir(dir)
+}
 
 // ---- C05: exhaustive enumeration of host-call fault points per program
 
@@ -738,7 +769,7 @@ func genVMFaults(prop string) func(*kernel.RNG, string, int) interface{} {
 	return func(r *kernel.RNG, tier string, i int) interface{} {
 		sc := &vmScenario{Prop: prop, Mode: "faults", Env: r.Pick([]string{"std", "std", "std", "dup", "clone"})}
 		sc.Budget = int64(r.PickInt([]int{5000, 50000, 200000}))
-		sc.Forms = genProgram(r, r.Range(2, 9), false, false)
+		sc.Forms, sc.Files = genProgramFiles(r, r.Range(2, 9), false, false)
 		return sc
 	}
 }
@@ -746,7 +777,7 @@ func genVMFaults(prop string) func(*kernel.RNG, string, int) interface{} {
 func genVMGrouping(r *kernel.RNG, tier string, i int) interface{} {
 	sc := &vmScenario{Prop: "C04", Mode: "grouping", Env: r.Pick([]string{"std", "std", "dup"})}
 	sc.Budget = 200000
-	sc.Forms = genProgram(r, r.Range(2, 10), true, true)
+	sc.Forms, sc.Files = genProgramFiles(r, r.Range(2, 10), true, true)
 	n := len(sc.Forms)
 	for left := n; left > 0; {
 		k := r.Range(1, 3)
@@ -768,7 +799,7 @@ func genVMGrouping(r *kernel.RNG, tier string, i int) interface{} {
 func genVMGrowth(r *kernel.RNG, tier string, i int) interface{} {
 	sc := &vmScenario{Prop: "C04", Mode: "growth", Env: r.Pick([]string{"std", "std", "dup"})}
 	sc.Budget = 200000
-	sc.Forms = genProgram(r, r.Range(1, 5), r.Chance(0.7), true)
+	sc.Forms, sc.Files = genProgramFiles(r, r.Range(1, 5), r.Chance(0.7), true)
 	sc.Repeat = r.Range(2, 60)
 	if r.Chance(0.6) {
 		sc.Repeat = r.Range(2, 6)
